@@ -406,11 +406,13 @@ Print Assumptions C06_message_valid_empty_nonvacuous.
    non-optional and message fields).  makeNullableSchema (openapiv3/types.go:81-100) appends "null" to `type` and leaves
    `enum` alone: the property is {type: [string, null], enum: [COLOR_UNSPECIFIED, COLOR_RED]}.  With the field unset the
    server sends "color": null (httpgen/nullable.go:147-156), which is not one of the enum values: the emitted schema
-   REJECTS the server's JSON.  No defect class covers it (defects_C06 = [], inside k6_common); all other hypotheses hold. *)
+   REJECTS the server's JSON.  (Found by the proof of C06_message_valid_nullable; confirmed on the emitted document by the
+   reference validator; now the defect class D6NullableEnum, listed in KNOWN_FINDINGS.jsonl.) *)
 Example C06_message_valid_nullable_needs_nonenum :
   let m := [(s "id", vstr "x")] in
   let j := JObj [(s "id", JStr (s "x")); (s "color", JNull)] in
-  ConformCodecs.k6_common (ConformCodecs.k6q "NulEnum") ConformCodecs.k6_nulenum m /\
+  defects_C06 ConformCodecs.k6s no_side (cd_cs ConformCodecs.k6doc) (ConformCodecs.k6q "NulEnum") m = [D6NullableEnum] /\
+  wt ConformCodecs.k6s (KMessage (ConformCodecs.k6q "NulEnum")) (FM m) = true /\
   owner_of ConformCodecs.k6s ConformCodecs.k6_nulenum = Own FtNullable /\ NullableConforms.nulplain_msg ConformCodecs.k6_nulenum = true /\
   ConformCodecs.kids_plain ConformCodecs.k6s ConformCodecs.k6_nulenum m = true /\
   ConformCodecs.nullable_shape ConformCodecs.k6_nulenum = false /\
